@@ -14,6 +14,10 @@ import (
 func (self *BindStm) format(printer *printer, prefix string, idWidth int) {
 	printer.printComments(self.getNode(), prefix+INDENT)
 	printer.printComments(self.Exp.getNode(), prefix+INDENT)
+	if sp, ok := self.Exp.(*SplitExp); ok && sp.Value != nil {
+		// The split keyword and its operand are separate nodes.
+		printer.printComments(sp.Value.getNode(), prefix+INDENT)
+	}
 
 	printer.mustWriteString(prefix)
 	printer.mustWriteString(INDENT)
